@@ -150,9 +150,9 @@ def summary(fnode, name_map=None, call_alias=None, unroll=(0, 1, 2), ignore_call
         if outcome is None:
             outcome = ('return', ('const', None)) if p.exit in ('fall', 'return') else (p.exit,)
         # a conditional expression in the returned value is a branch: `return a if c else b` == `if c: return a` / `return b`
-        if outcome[0] == 'return' and isinstance(outcome[1], tuple) and T.find_ifexp(outcome[1]) is not None:
+        if outcome[0] == 'return' and isinstance(outcome[1], tuple) and T.find_free_ifexp(outcome[1]) is not None:
             try:
-                split = T.cases(outcome[1], limit=32)
+                split = T.free_cases(outcome[1], limit=32)
             except AnalysisError:
                 split = [((), outcome[1])]
             for cl, leaf in split:
@@ -264,8 +264,26 @@ def summary(fnode, name_map=None, call_alias=None, unroll=(0, 1, 2), ignore_call
                     effects.append(('stmt', unparse(st)))
         finish(p, lits, effects, outcome)
 
+    def on_call(ctext, args, kws, node, builder):
+        # a call, anywhere in an expression, to a one-expression helper of the package is the expression itself
+        if inline is None:
+            return None
+        g = inline.target(node)
+        if g is None:
+            return None
+        body = [x for x in g.node.body if not (isinstance(x, ast.Expr) and isinstance(x.value, ast.Constant))]
+        if len(body) != 1 or not isinstance(body[0], ast.Return) or body[0].value is None:
+            return None
+        henv = inline.bind(g, node, builder)
+        if henv is None:
+            return None
+        hb = T.Builder(env=henv, name_map=name_map, call_alias=call_alias)
+        hb.strict_casts = strict_casts
+        hb._depth = builder._depth + 8        # keep bound-variable numbering apart
+        return T.simp(hb.t(body[0].value))
+
     for p in paths:
-        b = T.Builder(env=env, name_map=name_map, call_alias=call_alias)
+        b = T.Builder(env=env, name_map=name_map, call_alias=call_alias, on_call=on_call if inline is not None else None)
         b.strict_casts = strict_casts
         walk(p, 0, b, [], [])
     return out
